@@ -106,6 +106,12 @@ def run_hist(prop, steps):
             return b58check_decode(str(addrs[t[1]]))
         if op == 'U':
             return b58check_decode(str(addrs[t[1]]))
+        if op == 'E':
+            h160 = C.Hash160(pub(t[2]))
+            addrs[t[1]] = W.P2SHBitcoinAddress.from_bytes(h160) if t[3] == 'p2sh' else \
+                W.P2WPKHBitcoinAddress.from_bytes(0, h160)
+            aux.append(str(addrs[t[1]]).encode('ascii').hex())
+            return 'ok'
         if op == 'M':
             b64 = SM.SignMessage(regs[t[2]], SM.BitcoinMessage(uncps(t[3])))
             sigs[t[1]] = base64.b64decode(b64)
@@ -331,6 +337,11 @@ def gen_msg_history(rng, mat):
         a = 'a' + nm
         steps.append('D %s %s' % (a, nm))
         addrs.append(a)
+        if rng.random() < .8:                       # other address TYPES carrying the same hash160
+            for kind in ('p2sh', 'segwit'):
+                e = 'e%s%s' % (kind[0], nm)
+                steps.append('E %s %s %s' % (e, nm, kind))
+                addrs.append(e)
         tx = rand_text(rng)
         sn = 'm' + nm
         steps.append('M %s %s %s' % (sn, nm, cps(tx)))
